@@ -115,7 +115,15 @@ def o_stack(inp):
         if shared:
             kinds = sorted({ids_out[i] for i in shared})
             return ((f"aliasing-original:{name}", f"{len(shared)} mutable objects shared with the original library: {kinds}", "no shared mutable object"), True, sorted(cls))
-        if canon(out) != c_before:
+        # one instance, the same input, a second time: same result, again nothing shared (also not with the first result)
+        c_out = canon(out)
+        out2 = mw.transform(cur)
+        if canon(out2) != c_out or canon(out) != c_out or canon(cur) != c_before:
+            return ((f"second-application-differs:{name}", _diff(c_out, canon(out2)), "the same result as the first application, first result and input untouched"), True, sorted(cls))
+        shared = set(mutable_ids(out2)) & set(ids_before)
+        if shared:
+            return ((f"aliasing-second-application:{name}", f"{len(shared)} mutable objects of the second result are shared with the input", "no shared mutable object"), True, sorted(cls))
+        if c_out != c_before:
             nontrivial = True
         cur = out
     w = inp.get("write")
